@@ -34,6 +34,10 @@ package listener
 //@   ensures old(s.bufferSize) > old(s.bufferRead) ==> n == iteInt(len(p) < old(s.bufferSize) - old(s.bufferRead), len(p), old(s.bufferSize) - old(s.bufferRead)) && ghostInt(s.source, "rpos") == old(ghostInt(s.source, "rpos"))
 //@   ensures old(s.bufferSize) > old(s.bufferRead) && s.bufferRead < s.bufferSize ==> err == nil
 //@   ensures s.sniffing == old(s.sniffing) && s.bufferSize == old(s.bufferSize)
+// the error remembered for the end of the replay is the one that came WITH recorded bytes: a read that brought no data
+// (a sniff deadline that expired, say) reports its error to the caller at once and leaves nothing behind that a later
+// replay would hand to the service as the end of a stream that is in fact still open
+//@   ensures n == 0 || !old(s.sniffing) || old(s.bufferSize) > old(s.bufferRead) ==> s.lastErr == old(s.lastErr)
 
 //@ func (s *sniffer) reset(snif bool) ()
 //@   requires s != nil && s.conn != nil && s.source != nil && len(out(&s.buffer)) == ghostInt(s.source, "rpos") && forall(i, 0, len(out(&s.buffer)), out(&s.buffer)[i] == ghostBytes(s.source, "src")[i])
